@@ -1580,6 +1580,7 @@ fn main() {
     eprintln!("[laws] triples done: {} evaluations ({:.1}s)", triple_evals, rep.elapsed_s());
 
     // ---- report outer violations ----
+    let mut sig_counts: BTreeMap<String, u64> = BTreeMap::new();
     let case_json = |law: &str, ops: &[usize]| {
         json!({"law": law, "operands": ops.iter().map(|i| operand_json(r2[*i])).collect::<Vec<_>>()})
     };
@@ -1617,9 +1618,10 @@ fn main() {
             let label = label_text(*label, ops.len());
             let sig = format!("{law} {label} {obs}{}", CLASS_SUFFIX[hit.class()]);
             let detail = format!(
-                "{} cases ({} with pairwise different outer times, {} with an equal outer time, {} with an equal stamp on different payloads); first of the lowest class: {}",
+                "{} cases ({} with no outer stamp time shared by operands of different content, {} with such a shared time, {} with one stamp on different payloads); first of the lowest class: {}",
                 hit.count, hit.by_class[0], hit.by_class[1], hit.by_class[2], case_detail(law, &ops)
             );
+            sig_counts.insert(sig.clone(), hit.count);
             rep.violation(sig, detail, case_json(law, &ops));
         }
     }
@@ -1646,6 +1648,7 @@ fn main() {
         inner_info.push(json!({"lattice": res.name, "values": res.items, "pairs": res.pairs, "triples": res.triples,
                                "violating_signatures": res.hits.len()}));
         for (sig, n, detail, replay) in &res.hits {
+            sig_counts.insert(sig.clone(), *n);
             rep.violation(sig.clone(), format!("{n} cases; first: {detail}"), replay.clone());
         }
     }
@@ -1692,6 +1695,7 @@ fn main() {
             (format!("{law} {}", exact_kinds(&ks)), *n)
         }).collect::<BTreeMap<String, u64>>(),
         "merge_panics": panics.len(),
+        "violating_cases_by_signature": sig_counts,
         "observables_compared": OBS.iter().filter(|(b, _)| *b != O_CONTENT).map(|(_, n)| *n).collect::<Vec<_>>(),
     });
     let assumptions = vec![
